@@ -94,44 +94,50 @@ VF_SUB(multiparty_flip, 80, 2500) {
 // commitment (or opens correctly).  The honest parties run JareckiLysyanskayaEDCF::Flip unchanged: they must reconstruct the committed
 // share, agree, and output the sum of the committed shares.
 VF_SUB(multiparty_flip_mismatching_opening, 70, 2500) {
-  Grp G = pick_grp(ctx); size_t n = (size_t)ctx.c.range(4, ctx.thorough ? 7 : 5), t = (size_t)ctx.c.range(1, (n - 1) / 3);
-  size_t D = ctx.c.index(n); size_t nv = ctx.c.weighted({1, 3}) ? (size_t)ctx.c.range(1, t) : 0; size_t which = ctx.c.index(2); // which of the two private values (share / randomiser share)
-  int open_mode = (int)ctx.c.weighted({4, 2, 1}); // 0 wrong share, 1 wrong randomiser, 2 matching opening
-  std::vector<bool> victim(n, false); { std::vector<size_t> o; for (size_t x = 0; x < n; x++) if (x != D) o.push_back(x); for (size_t v = 0; v < nv; v++) { size_t z = v + ctx.c.index(o.size() - v); std::swap(o[v], o[z]); victim[o[v]] = true; } }
+  Grp G = pick_grp(ctx); size_t n = ctx.c.prob(1, 4) ? 7 : (size_t)ctx.c.range(4, ctx.thorough ? 7 : 5), t = (size_t)ctx.c.range(1, (n - 1) / 3); if (n == 7 && ctx.c.prob(3, 4)) t = 2;
+  // 1..t deviating parties; the first one may also hand out a wrong private value (adopted shares)
+  size_t nd = (size_t)ctx.c.range(1, t); std::vector<size_t> Dv; std::vector<int> isdev(n, -1); { std::vector<size_t> o(n); for (size_t x = 0; x < n; x++) o[x] = x; for (size_t v = 0; v < nd; v++) { size_t z = v + ctx.c.index(n - v); std::swap(o[v], o[z]); Dv.push_back(o[v]); isdev[o[v]] = (int)v; } }
+  size_t D = Dv[0]; size_t nv = ctx.c.weighted({1, 3}) ? (size_t)ctx.c.range(1, t) : 0; size_t which = ctx.c.index(2); // which of the two private values (share / randomiser share)
+  // opening of each deviating party: 0 wrong share, 1 wrong randomiser, 2 matching opening, 3 share + q (out of range, same residue), 4 opening withheld
+  std::vector<int> open_mode(nd); static const char *OMN[] = {"share+delta", "randomiser+delta", "matching", "share+q", "withheld"};
+  for (size_t v = 0; v < nd; v++) open_mode[v] = (int)ctx.c.weighted({4, 2, 1, 2, 2});
+  std::vector<bool> victim(n, false); { std::vector<size_t> o; for (size_t x = 0; x < n; x++) if (isdev[x] < 0) o.push_back(x); if (nv > o.size()) nv = o.size(); for (size_t v = 0; v < nv; v++) { size_t z = v + ctx.c.index(o.size() - v); std::swap(o[v], o[z]); victim[o[v]] = true; } }
   Z delta = ctx.c.coin() ? Z(1) : zrand_below(ctx, G.q - 1) + 1;
   std::vector<bool> present(n, true); Cluster cl(n, t, present); cl.bc.keep_log = true;
   cl.uni.tap = [&](size_t from, size_t to, unsigned long idx, detsim::Z &v) -> int { if (from == D && victim[to] && idx == which) v += 1; return 0; };
-  std::vector<JareckiLysyanskayaEDCF *> ed(n, nullptr); std::vector<bool> ret(n, false); std::vector<Z> out(n); JareckiLysyanskayaRVSS *rv = nullptr; bool d_share_ok = false, d_qual = false; Z aD;
-  std::ostringstream d; d << "multiparty_flip_mismatching_opening n=" << n << " t=" << t << " deviating=P" << D << " wrong-private-value#" << which << "->" << nv << " victim(s)"
-    << " opening=" << (open_mode == 0 ? "share+delta" : open_mode == 1 ? "randomiser+delta" : "matching");
+  std::vector<JareckiLysyanskayaEDCF *> ed(n, nullptr); std::vector<bool> ret(n, false); std::vector<Z> out(n); std::vector<JareckiLysyanskayaRVSS *> rv(n, nullptr); std::vector<bool> d_share_ok(n, false), d_qual(n, false); std::vector<Z> aD(n);
+  std::vector<size_t> expect_compl; for (size_t x = 0; x < n; x++) if (isdev[x] >= 0 && open_mode[isdev[x]] != 2) expect_compl.push_back(x); // what the honest parties arrive at (sorted, each once)
+  std::ostringstream d; d << "multiparty_flip_mismatching_opening n=" << n << " t=" << t << " deviating:"; for (size_t v = 0; v < nd; v++) d << " P" << Dv[v] << "(" << OMN[open_mode[v]] << ")";
+  d << " wrong-private-value#" << which << " of P" << D << "->" << nv << " victim(s)";
   bool simok = cl.run(ctx, [&](PartyEnv &e) {
-    if (e.i != D) { ed[e.i] = mk(G, n, t); e.rbc->setID("c17-flip"); ret[e.i] = ed[e.i]->Flip(e.i, out[e.i].get_mpz_t(), e.aiou, e.rbc, e.err, false); e.rbc->unsetID(); return; }
-    rv = new JareckiLysyanskayaRVSS(n, t, G.p.get_mpz_t(), G.q.get_mpz_t(), G.g.get_mpz_t(), G.h.get_mpz_t(), G.F, G.G);
-    e.rbc->setID("c17-flip"); std::stringstream id; id << "JareckiLysyanskayaEDCF::Flip()" << rv->p << rv->q << rv->g << rv->h << n << t; e.rbc->setID(id.str()); // the channel label Flip() uses
-    d_share_ok = rv->Share(e.i, e.aiou, e.rbc, e.err, false); aD = Z(rv->a_i);
-    d_qual = d_share_ok && std::find(rv->Qual.begin(), rv->Qual.end(), D) != rv->Qual.end();
-    if (d_qual) { Z a = Z(rv->a_i), ha = Z(rv->hata_i); if (open_mode == 0) a = zmod(a + delta, G.q); else if (open_mode == 1) ha = zmod(ha + delta, G.q);
-      e.rbc->Broadcast(a.get_mpz_t()); e.rbc->Broadcast(ha.get_mpz_t());
+    if (isdev[e.i] < 0) { ed[e.i] = mk(G, n, t); e.rbc->setID("c17-flip"); ret[e.i] = ed[e.i]->Flip(e.i, out[e.i].get_mpz_t(), e.aiou, e.rbc, e.err, false); e.rbc->unsetID(); return; }
+    int om = open_mode[isdev[e.i]]; JareckiLysyanskayaRVSS *r = rv[e.i] = new JareckiLysyanskayaRVSS(n, t, G.p.get_mpz_t(), G.q.get_mpz_t(), G.g.get_mpz_t(), G.h.get_mpz_t(), G.F, G.G);
+    e.rbc->setID("c17-flip"); std::stringstream id; id << "JareckiLysyanskayaEDCF::Flip()" << r->p << r->q << r->g << r->h << n << t; e.rbc->setID(id.str()); // the channel label Flip() uses
+    d_share_ok[e.i] = r->Share(e.i, e.aiou, e.rbc, e.err, false); aD[e.i] = Z(r->a_i);
+    d_qual[e.i] = d_share_ok[e.i] && std::find(r->Qual.begin(), r->Qual.end(), e.i) != r->Qual.end();
+    if (d_qual[e.i]) { Z a = Z(r->a_i), ha = Z(r->hata_i); if (om == 0) a = zmod(a + delta, G.q); else if (om == 1) ha = zmod(ha + delta, G.q); else if (om == 3) a = a + G.q;
+      if (om != 4) { e.rbc->Broadcast(a.get_mpz_t()); e.rbc->Broadcast(ha.get_mpz_t()); }
       std::vector<mpz_ptr> av; for (size_t j = 0; j < n; j++) { mpz_ptr x = new mpz_t(); mpz_init(x); av.push_back(x); }
-      Z tmp; for (size_t j : rv->Qual) if (j != D) { e.rbc->DeliverFrom(av[j], j); e.rbc->DeliverFrom(tmp.get_mpz_t(), j); }
-      std::vector<size_t> compl_; if (open_mode != 2) compl_.push_back(D); // what the honest parties compute
-      rv->Reconstruct(e.i, compl_, av, e.rbc, e.err);
+      Z tmp; for (size_t j : r->Qual) if (j != e.i) { if (e.rbc->DeliverFrom(av[j], j)) e.rbc->DeliverFrom(tmp.get_mpz_t(), j); }
+      std::vector<size_t> compl_; for (size_t x : expect_compl) if (std::find(r->Qual.begin(), r->Qual.end(), x) != r->Qual.end()) compl_.push_back(x);
+      r->Reconstruct(e.i, compl_, av, e.rbc, e.err);
       for (auto x : av) { mpz_clear(x); delete x; } }
     e.rbc->unsetID(); e.rbc->unsetID(); });
-  ctx.desc << d.str() << " vtime=" << vf::vnow; ctx.label("n=" + std::to_string(n)); ctx.label(open_mode == 2 ? "matching-opening" : "mismatching-opening"); ctx.label(nv ? "with-adopted-shares" : "no-private-fault");
+  bool anymis = !expect_compl.empty();
+  ctx.desc << d.str() << " vtime=" << vf::vnow; ctx.label("n=" + std::to_string(n)); ctx.label("t=" + std::to_string(t)); ctx.label("deviating=" + std::to_string(nd)); ctx.label(anymis ? "mismatching-opening" : "matching-opening"); for (size_t v = 0; v < nd; v++) ctx.label(std::string("opening:") + OMN[open_mode[v]]); ctx.label(nv ? "with-adopted-shares" : "no-private-fault");
   ctx.nontrivial(d.str() + std::to_string(cl.bc.sent));
   if (!simok) ctx.fail("flip/multiparty/simulation-deadlock-or-time-budget", d.str() + cl.task_errors());
-  std::vector<size_t> H; for (size_t i = 0; i < n; i++) if (i != D) H.push_back(i);
-  if (!ctx.failed && !d_share_ok) { ctx.label("deviating-party-failed-in-share"); }
+  std::vector<size_t> H; for (size_t i = 0; i < n; i++) if (isdev[i] < 0) H.push_back(i);
+  for (size_t x : Dv) if (!ctx.failed && !d_share_ok[x]) { ctx.label("deviating-party-failed-in-share"); }
   for (size_t i : H) if (!ctx.failed && !ret[i]) ctx.fail("flip/multiparty/honest-party-fails/mismatching-opening", "party " + std::to_string(i) + " " + d.str() + " log: " + cl.env[i]->err.str().substr(0, 900) + cl.task_errors());
   for (size_t i : H) if (!ctx.failed && out[i] != out[H[0]]) ctx.fail("flip/multiparty/outputs-differ/mismatching-opening", "P" + std::to_string(H[0]) + " " + S(out[H[0]]) + " vs P" + std::to_string(i) + " " + S(out[i]) + " " + d.str());
-  if (!ctx.failed) { // expected: sum of the honest openings (read off the wire) plus the COMMITTED share of the deviating party if it is qualified
+  if (!ctx.failed) { // expected: sum of the honest openings (read off the wire) plus the COMMITTED share of every deviating party that is qualified
     std::string flip_id; for (auto &kv : cl.env[H[0]]->rbc->ID_log) if (kv.second.find("JareckiLysyanskayaEDCF::Flip()") != std::string::npos) flip_id = kv.first;
     if (flip_id.empty()) ctx.label("flip-channel-not-identified");
-    else { Z idz = zparse62(flip_id), sum = d_qual ? aD : Z(0); size_t found = 0;
+    else { Z idz = zparse62(flip_id), sum = 0; size_t found = 0; for (size_t x : Dv) if (d_qual[x]) sum = zmod(sum + aD[x], G.q);
       for (size_t j : H) { const std::vector<Z> &lg = cl.bc.log[j][j]; for (size_t k = 0; k + 4 < lg.size(); k += 5) if (lg[k] == idz && lg[k + 1] == Z((unsigned long)j) && lg[k + 2] == 1 && lg[k + 3] == 1) { sum = zmod(sum + lg[k + 4], G.q); found++; break; } }
       ctx.count("shares_read_off_the_wire", (int64_t)found);
-      if (found == H.size() && out[H[0]] != sum) ctx.fail("flip/multiparty/output-is-not-sum-of-committed-shares/mismatching-opening", "output " + S(out[H[0]]) + " expected " + S(sum) + " (deviating party qualified: " + std::to_string(d_qual) + ") " + d.str()); }
+      if (found == H.size() && out[H[0]] != sum) ctx.fail("flip/multiparty/output-is-not-sum-of-committed-shares/mismatching-opening", "output " + S(out[H[0]]) + " expected " + S(sum) + " " + d.str()); }
   }
-  for (auto x : ed) delete x; delete rv;
+  for (auto x : ed) delete x; for (auto x : rv) delete x;
 }
